@@ -61,21 +61,25 @@ struct ical_vevent_s *rec_proc(struct ical_parser_s *p)
 	return sz && p->stash[0] == 'E' ? &fake_ve : NULL;
 }
 
-static struct ical_parser_s P1, P2;
 static char in1[N + 1], in2a[N + 1], in2b[N + 1];
 
-static void drain(struct ical_parser_s *p)
-{
-	/* the callers' loop: pull until "need more data" */
-	for (unsigned k = 0; k < N + 2; k++) {
-		if (_ical_pull(p) == NULL) return;
-	}
-	CHECK(0, "pulling terminates within one instruction per input byte");
-}
+/* the callers' loop: pull until "need more data"; a chunk of NB bytes completes at
+ * most NB lines, so NB + 1 pulls must suffice */
+#define DRAIN(p, nb) \
+	do { \
+		bool done_ = false; \
+		for (unsigned k_ = 0; k_ < (nb) + 1U; k_++) { \
+			if (!done_ && _ical_pull(p) == NULL) done_ = true; \
+		} \
+		CHECK(done_, "pulling terminates within one instruction per input byte"); \
+	} while (0)
 
 void harness(void)
 {
 	static struct reclog_s L1, L2;
+	/* the parser objects as _ical_init_push/calloc hands them out: all zero where
+	 * the encoded functions look (state, stash index, stash content) */
+	static struct ical_parser_s P1, P2;
 	sym_load();
 	for (unsigned i = 0; i < N; i++) {
 		ASSUME(in.b[i] >= 0 && in.b[i] <= 255);
@@ -92,13 +96,13 @@ void harness(void)
 	/* one chunk */
 	cur = &L1;
 	_ical_push(&P1, in1, N);
-	drain(&P1);
+	DRAIN(&P1, N);
 	/* two chunks */
 	cur = &L2;
 	_ical_push(&P2, in2a, SPLIT);
-	drain(&P2);
+	DRAIN(&P2, SPLIT);
 	_ical_push(&P2, in2b, N - SPLIT);
-	drain(&P2);
+	DRAIN(&P2, N - SPLIT);
 	/* end of input: the last pull, as echs_evical_last_pull does */
 	cur = &L1;
 	(void)_ical_pull(&P1);
